@@ -185,6 +185,28 @@ pub fn cases(rng: &mut Rng, tier: &str) -> (Vec<Case>, bool) {
         c.tag = format!("{}+script", c.tag);
     }
     let _ = n_cases;
+    // replies are handed to the core as typed: blanks at either end, an opening quote that is never closed (its trailing
+    // blanks belong to the string), blanks that are not BASIC blanks - the value shown afterwards tells
+    for reply in ["\"HELLO ", "\"HELLO  \t", "  \"sp  ", " x ", "x\u{a0}", "\"q\"  ", "7 ", " 7", "\"a, b ", "a : b ", "\u{3000}z\u{3000}", ""] {
+        for target in ["A$", "A"] {
+            let mut ops = vec!["wnew".to_string(), "wseed 3".to_string(), "wsubmit".to_string()];
+            ops.push(ev("wsubmit", &format!("10 INPUT {}", target)));
+            ops.push(ev("wsubmit", &format!("20 PRINT \"[\"; {}; \"]\"", target)));
+            ops.push(ev("wsubmit", "RUN"));
+            ops.push("wtick".to_string());
+            ops.push("wtick".to_string());
+            ops.push(ev("wsubmit", reply));
+            for _ in 0..4 {
+                ops.push("wtick".to_string());
+            }
+            ops.push(ev("wsubmit", "5"));
+            for _ in 0..4 {
+                ops.push("wtick".to_string());
+            }
+            let checks = (0..ops.len()).filter(|i| ops[*i].starts_with("wsubmit") || ops[*i] == "wtick").map(|i| format!("web-ok {}", i)).collect();
+            cases.push(Case { ops, checks, tag: "reply-as-typed".into(), nontrivial: true, show: format!("INPUT {} answered {:?}", target, reply) });
+        }
+    }
     // NEW then a fixed probe session, against the same probes on a fresh page
     let m = if tier == "thorough" { 300 } else { 40 };
     for _ in 0..m {
